@@ -446,6 +446,33 @@ Theorem c11_bytes_func_sound : forall nm tg (bytes : list Z) (sch : list Z) q s,
 Proof. exact Text3.bytes_func_sound. Qed.
 Print Assumptions c11_bytes_func_sound.
 
+(* The last clause of the property, stated of the bytes: when the records of the text do not overlap,
+   fill_symbol on the table parsed from the bytes equals the linear scans over the records of the text
+   (c11_equals_linear_scan composed with c11_from_bytes). *)
+Theorem c11_bytes_equals_linear_scan : forall nm tg (bytes : list Z) (sch : list Z) q s,
+  RM.C09.Driver.drive_c (map Grammar.to_rle (fst (Grammar.split_bytes bytes [])))
+                        (Z.of_nat (length (snd (Grammar.split_bytes bytes [])))) sch
+    = Ret (RM.C09.Model.ROk q, s) ->
+  Z.of_nat (length bytes) < two32 - 1 -> Text3.enc_names_ok nm tg q ->
+  let rf := Text2.raw_of_pst nm tg q in
+  non_overlapping rf ->
+  exists t, Grammar.finish q = Ret t /\
+  forall p mbase instr, 0 <= mbase -> mbase <= instr < two64 ->
+  exists o, fill_symbol p (Text2.symtab_of_table nm tg t) mbase instr = Ret o /\
+    match ref_func rf (instr - mbase) with
+    | Some fr => o = ref_fill_func rf (ref_psize rf fr (instr - mbase)) mbase (instr - mbase) fr
+    | None =>
+        ((forall pq, In pq (rf_publics rf) -> instr - mbase < p_addr pq) /\ o = empty_out) \/
+        (exists pb, In pb (rf_publics rf) /\ p_addr pb <= instr - mbase /\
+           (forall pq, In pq (rf_publics rf) -> p_addr pq <= instr - mbase -> pub_lt pb pq = false) /\
+           let cut := exists fr, In fr (rf_funcs rf) /\ mk_range (fr_addr fr) (fr_size fr) <> None /\
+                                 p_addr pb <= fr_addr fr <= instr - mbase in
+           ((cut /\ o = empty_out) \/
+            (~ cut /\ o = mk_out (Some (p_name pb, p_addr pb + mbase, p_psize pb)) None [])))
+    end.
+Proof. exact Text3.bytes_equals_linear_scan. Qed.
+Print Assumptions c11_bytes_equals_linear_scan.
+
 (* Symbolizer level from bytes: a module whose SymbolFile was parsed from such a byte string meets
    [module_parsed], the hypothesis of c11_module_frame_total — so walk_stack -> fill_source_line_info ->
    Symbolizer::fill_symbol over a module list whose symbol files were all parsed from bytes never
@@ -644,10 +671,11 @@ Example c11_nonvacuous_from_bytes :
       = Ret (RM.C09.Model.ROk q, s) /\
     Z.of_nat (length nv_bytes) < two32 - 1 /\ Text3.enc_names_ok nv_nm nv_tg q /\
     Text3.pst_rng 104 q /\
-    map (fun f => length (Grammar.fr_inls f)) (Text.funcs_of_pst q) = [2%nat].
+    map (fun f => length (Grammar.fr_inls f)) (Text.funcs_of_pst q) = [2%nat] /\
+    non_overlapping (Text2.raw_of_pst nv_nm nv_tg q).
 Proof.
   eexists. eexists. split; [vm_compute; reflexivity|]. split; [vm_compute; reflexivity|].
-  split; [|split; [|vm_compute; reflexivity]].
+  split; [|split; [|split; [vm_compute; reflexivity|]]].
   - constructor.
     + unfold Text.names_injective. cbn. intros a b [<-|[]] [<-|[]] _. reflexivity.
     + cbn. intros a b [<-|[<-|[]]] [<-|[<-|[]]]; vm_compute; reflexivity.
@@ -658,6 +686,8 @@ Proof.
                                      (map Grammar.to_rle (fst (Grammar.split_bytes nv_bytes []))))).
     + vm_compute. discriminate.
     + apply (Text3.fold_recog_rng _ 0 Grammar.init_pst); [lia|exact Text3.init_pst_rng|vm_compute; reflexivity].
+  - unfold non_overlapping, func_dj, line_dj, inl_dj, win_dj, occ_disjoint; cbn.
+    repeat (first [apply Forall_nil | apply Forall_cons | split]); cbn; try lia; try (right; lia).
 Qed.
 
 (* round 5: a FUNC block with three INLINE ranges sharing (depth 0, address 16) — sizes 4, 8, 8, call lines
